@@ -11,7 +11,9 @@ def jOpt {α} (f : Json → Except String α) (j : Json) : Except String (Option
   | _ => do pure (some (← f j))
 
 def jEvalFn (j : Json) : Except String (List Rat → Rat) := do
-  let e ← jFExpr j
+  let e ← match j.getObjVal? "e" with
+    | .ok ej => jFExpr ej
+    | .error _ => jFExpr j
   pure (fun xs => e.eval xs)
 
 def jStoich (j : Json) : Except String (List (String × Coef)) := jAssoc jCoef j
@@ -46,6 +48,9 @@ def jMut (j : Json) : Except String Op := do
   | [.str "add_readout", n, f] => pure (.add_readout (← jStr n) (← jFn f))
   | [.str "remove_readout", n] => pure (.remove_readout (← jStr n))
   | [.str "add_surrogate", n, su] => pure (.add_surrogate (← jStr n) (← jSur su))
+  | [.str "add_surrogate", n, su, a, o, st] =>
+      pure (.add_surrogate_kw (← jStr n) (← jSur su)
+        { args := ← jOpt (jList jStr) a, outs := ← jOpt (jList jStr) o, stoich := ← jOpt (jAssoc jStoich) st })
   | [.str "update_surrogate", n, su, a, o, st] =>
       pure (.update_surrogate (← jStr n)
         { sur := ← jOpt jSur su, args := ← jOpt (jList jStr) a, outs := ← jOpt (jList jStr) o,
@@ -56,13 +61,48 @@ def jMut (j : Json) : Except String Op := do
   | [.str "remove_data", n] => pure (.remove_data (← jStr n))
   | _ => .error s!"bad op {j.compress}"
 
+def jFlags (j : Json) : Except String Flags := do
+  match ← jList jBool j with
+  | [a, b, c, d, e, f, g, h, i] =>
+    pure { time := a, vars := b, pars := c, dpars := d, dvars := e, rxns := f, survars := g, surfluxes := h,
+           readouts := i }
+  | _ => .error s!"bad flags {j.compress}"
+
+def jNameQ (j : Json) : Except String NameQ := do
+  match ← jStr j with
+  | "vars" => pure .vars
+  | "pars" => pure .pars
+  | "rxns" => pure .rxns
+  | "readouts" => pure .readouts
+  | "surouts" => pure (.surOuts true)
+  | "survars" => pure (.surOuts false)
+  | "surrxns" => pure .surRxns
+  | "unused" => pure .unusedPars
+  | "rawvars" => pure .rawVars
+  | "rawpars" => pure .rawPars
+  | "rawderived" => pure .rawDerived
+  | "rawrxns" => pure .rawRxns
+  | "rawreadouts" => pure .rawReadouts
+  | "rawsurs" => pure .rawSurs
+  | x => .error s!"bad names query {x}"
+
+def jRows (j : Json) : Except String (List (Rat × List Rat)) := jList (jPair jRat (jList jRat)) j
+
 def jQuery (j : Json) : Except String Query := do
   match ← jArr j with
+  | [.str "q", .str "names", w] => pure (.names (← jNameQ w))
+  | [.str "q", .str "argnames", fl] => pure (.argNames (← jFlags fl))
+  | [.str "q", .str "argsf", v, t, fl] => pure (.args (← jOpt (jList jRat) v) (← jRat t) (← jFlags fl))
+  | [.str "q", .str "rawstoich", x] => pure (.rawStoich (← jStr x))
+  | [.str "q", .str "argstc", rows, fl] => pure (.argsTC (← jRows rows) (← jFlags fl))
+  | [.str "q", .str "fluxestc", rows] => pure (.fluxesTC (← jRows rows))
+  | [.str "q", .str "rhstc", rows] => pure (.rhsTC (← jRows rows))
+  | [.str "q", .str "eq"] => pure .eqFresh
   | [.str "q", .str "init"] => pure .init
   | [.str "q", .str "pvals"] => pure .pvals
   | [.str "q", .str "classes"] => pure .classes
-  | [.str "q", .str "args", v, t] => pure (.args (← jOpt (jList jRat) v) (← jRat t) false)
-  | [.str "q", .str "argsro", v, t] => pure (.args (← jOpt (jList jRat) v) (← jRat t) true)
+  | [.str "q", .str "args", v, t] => pure (.args (← jOpt (jList jRat) v) (← jRat t) {})
+  | [.str "q", .str "argsro", v, t] => pure (.args (← jOpt (jList jRat) v) (← jRat t) { readouts := true })
   | [.str "q", .str "rhs", v, t] => pure (.rhs (← jOpt (jList jRat) v) (← jRat t))
   | [.str "q", .str "fluxes", v, t] => pure (.fluxes (← jOpt (jList jRat) v) (← jRat t))
   | [.str "q", .str "call", t, v] => pure (.call (← jRat t) (← jList jRat v))
@@ -71,10 +111,82 @@ def jQuery (j : Json) : Except String Query := do
       pure (.stoichvar (← jStr x) (← jOpt (jList jRat) v) (← jRat t))
   | _ => .error s!"bad query {j.compress}"
 
+/-! signatures of the function objects an op passes (wire: optional `"sig": [nargs, ndefaults|null, nkwonly, varargs]`
+    next to `"e"`; without it the harness compiles a function with max(number of args, highest index + 1)
+    positional parameters) -/
+
+def maxArgP1 : FExpr → Nat
+  | .arg i => i + 1
+  | .const _ => 0
+  | .add a b | .sub a b | .mul a b => max (maxArgP1 a) (maxArgP1 b)
+  | .neg a => maxArgP1 a
+
+def jSig (j : Json) : Except String Gen.Sig := do
+  match ← jArr j with
+  | [n, d, k, v] => pure { nargs := ← jNat n, defaults := ← jOpt jNat d, kwonly := ← jNat k, varargs := ← jBool v }
+  | _ => .error s!"bad sig {j.compress}"
+
+/-- signature of FN = {"args", "e", ["sig"]} -/
+def fnSig (j : Json) : Except String Gen.Sig := do
+  match j.getObjVal? "sig" with
+  | .ok sj => jSig sj
+  | .error _ =>
+    let args ← jList jStr (← field j "args")
+    let e ← jFExpr (← field j "e")
+    pure { nargs := max args.length (maxArgP1 e) }
+
+/-- signature of the function argument of update_derived / update_reaction (bare FExpr or {"e", "sig"}) -/
+def bareSig (j : Json) (newArgs : Json) : Except String Gen.Sig := do
+  let n ← match newArgs with
+    | .null => pure 0
+    | a => do pure (← jList jStr a).length
+  match j.getObjVal? "sig" with
+  | .ok sj => jSig sj
+  | .error _ =>
+    let e ← match j.getObjVal? "e" with
+      | .ok ej => jFExpr ej
+      | .error _ => jFExpr j
+    pure { nargs := max n (maxArgP1 e) }
+
+def valSig (n : Json) (v : Json) : Except String (List (String × Gen.Sig)) := do
+  match v.getObjVal? "ia" with
+  | .ok f => pure [(← jStr n, ← fnSig f)]
+  | .error _ => pure []
+
+def valsSig (l : Json) : Except String (List (String × Gen.Sig)) := do
+  let ps ← jList (fun p => do
+    match ← jArr p with
+    | [n, v] => valSig n v
+    | _ => .error "bad pair") l
+  pure ps.flatten
+
+def givenOf (j : Json) : Except String (List (String × Gen.Sig)) := do
+  match ← jArr j with
+  | [.str "add_parameter", n, v] | [.str "add_variable", n, v] | [.str "update_variable", n, v] => valSig n v
+  | [.str "update_parameter", n, v] => match v with
+    | .null => pure []
+    | v => valSig n v
+  | [.str "add_parameters", l] | [.str "update_parameters", l] | [.str "add_variables", l]
+  | [.str "update_variables", l] => valsSig l
+  | [.str "add_derived", n, f] | [.str "add_readout", n, f] | [.str "add_reaction", n, f] =>
+    pure [(← jStr n, ← fnSig f)]
+  | [.str "update_derived", n, e, a] | [.str "update_reaction", n, e, a, _] => match e with
+    | .null => pure []
+    | e => do pure [(← jStr n, ← bareSig e a)]
+  | _ => pure []
+
+/-- a trailing "meta" mark asks the harness to pass `unit=` / `source=` as well; the model has no units -/
+def dropMeta (j : Json) : Json :=
+  match j with
+  | .arr a => if a.back? == some (.str "meta") then .arr a.pop else j
+  | _ => j
+
 def jHOp (j : Json) : Except String HOp := do
+  let j := dropMeta j
   match ← jArr j with
   | .str "q" :: _ => pure (.ask (← jQuery j))
-  | _ => pure (.edit (← jMut j))
+  | [.str "fork"] => pure .fork
+  | _ => pure (.edit (← jMut j) (← givenOf j))
 
 def errClass : Err → Json
   | .keyError _ => .str "KeyError"
@@ -95,12 +207,19 @@ def ansJ (q : Query) : Except Err Ans → Json
   | .error e => Json.mkObj [("err", errJ e)]
   | .ok (.assoc l) =>
     let l := match q with
-      | .pvals | .args .. => sortNames l
+      | .pvals => sortNames l
+      | .args _ _ fl => if fl == {} || fl == { readouts := true } then sortNames l else l
       | _ => l
     Json.mkObj [("ok", assocJ ratJ l)]
   | .ok (.rats l) => Json.mkObj [("ok", ratsJ l)]
   | .ok (.classes p v) => Json.mkObj [("ok", Json.arr #[strsJ p, strsJ v])]
   | .ok (.table l) => Json.mkObj [("ok", assocJ (assocJ ratJ) l)]
+  | .ok (.names l) => Json.mkObj [("ok", strsJ l)]
+  | .ok (.coefs l) => Json.mkObj [("ok", assocJ (fun (c : Coef) => match c with
+      | .num v => Json.mkObj [("c", ratJ v)]
+      | .dyn f => Json.mkObj [("args", strsJ f.args)]) l)]
+  | .ok (.rows l) => Json.mkObj [("ok", .arr (l.map (assocJ ratJ)).toArray)]
+  | .ok (.bool b) => Json.mkObj [("ok", .bool b)]
 
 def keysJ (c : Content) : Json :=
   .arr #[strsJ (omKeys c.vars), strsJ (omKeys c.pars), strsJ (omKeys c.derived), strsJ (omKeys c.readouts),
@@ -116,12 +235,13 @@ def runAll (start : Nat) : Nat → State → List HOp → List Json → List Jso
   | i, s, h :: rest, acc =>
     let (s', o) : State × Json :=
       match h with
-      | .edit op =>
-        let r := step s op
+      | .edit op given =>
+        let r := stepS s op given
         (r.1, obs r.1 (match r.2 with | .ok () => .str "ok" | .error e => errClass e) .null)
       | .ask q =>
         let r := query s q
         (r.1, obs r.1 (.str "ok") (ansJ q r.2))
+      | .fork => (s, obs s (.str "ok") .null)
     runAll start (i + 1) s' rest (if i < start then acc else o :: acc)
 
 def handle (j : Json) : Except String Json := do
